@@ -15,6 +15,10 @@ from .. import env, gen
 env.bootstrap()
 from .. import lib  # noqa: E402
 
+class NotJudged(Exception):
+    """the edit left the block in a state this workload has no model for; every caller abandons the case"""
+
+
 W = {"data3D": 3, "emg": 1, "force3D": 9, "platData": 6}
 
 
@@ -84,9 +88,66 @@ def inplace_edit(rng, b, spec):
         choices.append("platcal-size")
     if kind == "calib" and its:
         choices.append("camera-focus")
+    if kind == "data3D" and spec["format"] in (1, 2):
+        choices.append("format-switch")
+    if kind in ("data3D", "emg", "force3D", "platData", "platCal"):
+        choices.append("refused-request")
     if not choices:
         return None
     ch = rng.choice(choices)
+    if ch == "format-switch":
+        # the same block stored in the other by-track format: with / without its link table
+        from basictdf import tdfData3D
+        new = 2 if spec["format"] == 1 else 1
+        b.format = tdfData3D.Data3dBlockFormat(new)
+        s2["format"] = new
+        if new == 2:
+            s2.pop("links", None)
+        else:
+            links = getattr(b, "links", [])
+            s2["links"] = [[int(x), int(y)] for x, y in (links.tolist() if isinstance(links, np.ndarray) else links)]
+        return ch, s2
+    if ch == "refused-request":
+        # a request the block must refuse (wrong length, wrong kind, channel already in use, a list with one bad
+        # element): afterwards it is the block it was before.  If the request is *not* refused the case is dropped
+        # here (admission is C15 / C16's business), never judged with a guessed state.
+        n = spec.get("nFrames", spec.get("nSamples", 3))
+        w = W.get(kind)
+        what = rng.choice(["wrong-length", "wrong-kind", "channel-in-use", "bad-list"])
+        try:
+            if kind in ("data3D", "force3D"):
+                bad = lib.build_item(kind, {"label": "bad", "frames": gen.rframes(rng, [True] * (n + 1), w)}, {})
+                if what == "bad-list":
+                    b.tracks = list(b.tracks) + [bad]
+                elif what == "wrong-kind":
+                    b.add_track(object())
+                else:
+                    b.add_track(bad)
+            elif kind == "emg":
+                if what == "channel-in-use" and spec["map"]:
+                    okt = lib.build_item(kind, {"label": "dup", "frames": gen.rframes(rng, [True] * n, 1)}, {})
+                    b.addSignal(okt, channel=rng.choice(spec["map"]))
+                elif what == "wrong-kind":
+                    b.addSignal(object())
+                else:
+                    b.addSignal(lib.build_item(kind, {"label": "bad", "frames": gen.rframes(rng, [True] * (n + 1), 1)}, {}))
+            elif kind == "platData":
+                # (the length of a platform's arrays is not checked on admission by this block type, and no property
+                # says it is: only a taken channel and a foreign object are requests it has to refuse)
+                if what in ("channel-in-use", "wrong-length") and spec["map"]:
+                    okp = lib.build_item(kind, {"frames": gen.rframes(rng, [True] * n, 6)}, {})
+                    b.add_platform(okp, channel=rng.choice(spec["map"]))
+                else:
+                    b.add_platform(object())
+            else:
+                if what == "channel-in-use" and spec["map"]:
+                    b.add_platform(lib.build_item(kind, {"label": "dup", "size": [1.0, 2.0], "position": [0.0] * 12}, {}),
+                                   channel=rng.choice(spec["map"]))
+                else:
+                    b.add_platform(object())
+        except Exception:
+            return ch + ":" + what, s2
+        raise NotJudged("a request that had to be refused was accepted")
     if ch in ("open-gap", "fill-gap", "change-sample", "rebind-data", "column-setter"):
         i = rng.randrange(len(its))
         fr = s2[key][i]["frames"]
